@@ -56,6 +56,11 @@ func FeedLog(ctx context.Context, l config.Log, w feeder.Witness, c *http.Client
 		if from.Size == 0 {
 			return [][]byte{}, nil
 		}
+		// tlog.ProveTree never returns for tree sizes of 2^62 and above (and cannot
+		// represent sizes of 2^63 and above at all): refuse them here.
+		if to.Size >= 1<<62 {
+			return nil, fmt.Errorf("checkpoint size %d is too large to build a proof for", to.Size)
+		}
 		var h [32]byte
 		copy(h[:], to.Hash)
 		tree := tlog.Tree{
